@@ -315,6 +315,16 @@ def make_inputs(tier, rnd, exe):
     bases = []
     for f, cs in sorted(fams.items()):
         bases += cs if f == "sim" else rnd.sample(cs, min(per, len(cs)))
+    # ... and one operator case of every arity class of the specification's table (each class has its own
+    # reader callback; a seeded sample of six alone can leave a class out)
+    txt = open(os.path.join(NL, "NLModel.tla")).read()
+    cls_of = {n: k for n, _, k in re.findall(r'<<"(\w+)", (\d+), "(\w+)">>', txt)}
+    have = {cls_of.get(c["tag"].split(":")[1]) for c in bases if c["tag"].startswith("op:")}
+    byc = {}
+    for c in fams.get("op", []):
+        byc.setdefault(cls_of.get(c["tag"].split(":")[1]), []).append(c)
+    for k in sorted(k for k in byc if k is not None and k not in have):
+        bases.append(rnd.choice(byc[k]))
     for c in bases:
         c["cfgs"] = [rnd.choice(c03.ALL_CFGS)]
     work = os.path.join(BUILD, "run", PID, "gen")
